@@ -169,6 +169,7 @@ package dbft
 // checkConfig is what New runs on the assembled configuration: when it accepts, the callbacks it looks at are present
 // (the other callbacks have non-nil defaults; an option that sets one of them to nil is outside A4).
 //@ func checkConfig
+//@   params cfg
 //@   loops 0
 //@   ensures [C11] @requiredCallbacks implies(result == nil, cfg.GetKeyPair != nil && cfg.Timer != nil && cfg.CurrentHeight != nil && cfg.CurrentBlockHash != nil
 //@        && cfg.GetValidators != nil && cfg.NewBlockFromContext != nil && cfg.NewConsensusPayload != nil && cfg.NewPrepareRequest != nil
@@ -180,20 +181,25 @@ package dbft
 // ---- C06 ----
 
 //@ func (*Context).N
+//@   recvname c
 //@   loops 0
 //@   ensures [C06] result == len(c.Validators)
 //@   modifies nothing
 //@ func (*Context).F
+//@   recvname c
 //@   loops 0
 //@   requires nvalid()
 //@   ensures [C06,C01,C02,C04,C07] result == specF(len(c.Validators))
 //@   modifies nothing
 //@ func (*Context).M
+//@   recvname c
 //@   loops 0
 //@   requires nvalid()
 //@   ensures [C06,C01,C02,C04,C07] result == specM(len(c.Validators))
 //@   modifies nothing
 //@ func (*Context).GetPrimaryIndex
+//@   recvname c
+//@   params viewNumber
 //@   loops 0
 //@   requires nvalid()
 //@   ensures [C06,C04] @formula result == emod(c.BlockIndex - viewNumber, len(c.Validators))
@@ -444,12 +450,14 @@ package dbft
 // ---- context.go ----
 
 //@ func (*Context).CountCommitted
+//@   recvname c
 //@   loops 1
 //@   requires wf()
 //@   loop 1: invariant 0 <= count && count <= i && i <= len(c.CommitPayloads)
 //@   ensures 0 <= count && count <= len(c.CommitPayloads)
 //@   modifies nothing
 //@ func (*Context).CountFailed
+//@   recvname c
 //@   loops 1
 //@   requires wf()
 //@   loop 1: invariant 0 <= count && count <= i && i <= len(c.LastSeenMessage)
@@ -457,6 +465,7 @@ package dbft
 //@   modifies nothing
 
 //@ func emptyReusableSlice
+//@   params s, n
 //@   loops 0
 //@   requires n >= 0
 //@   ensures [C05,C11,C04,C02,C03] @sizedAndEmpty len(result) == n && forall(k, 0, n, result[k] == nil)
@@ -464,21 +473,25 @@ package dbft
 
 // C13: the "sent" predicates are the implicit watch-only filters of checkPreCommit, onChangeView, onTimeout, ...
 //@ func (*Context).ResponseSent
+//@   recvname c
 //@   loops 0
 //@   requires wf()
 //@   ensures [C13] @filtersWatchOnly result == (c.MyIndex >= 0 && !c.Config.WatchOnly() && c.PreparationPayloads[c.MyIndex] != nil)
 //@   modifies nothing
 //@ func (*Context).PreCommitSent
+//@   recvname c
 //@   loops 0
 //@   requires wf()
 //@   ensures [C13] @filtersWatchOnly result == (c.MyIndex >= 0 && !c.Config.WatchOnly() && c.PreCommitPayloads[c.MyIndex] != nil)
 //@   modifies nothing
 //@ func (*Context).CommitSent
+//@   recvname c
 //@   loops 0
 //@   requires wf()
 //@   ensures [C13] @filtersWatchOnly result == (c.MyIndex >= 0 && !c.Config.WatchOnly() && c.CommitPayloads[c.MyIndex] != nil)
 //@   modifies nothing
 //@ func (*Context).isAntiMEVExtensionEnabled
+//@   recvname c
 //@   loops 0
 //@   requires cfgOK()
 //@   ensures [C07] @enabled result == amev()
@@ -486,6 +499,7 @@ package dbft
 
 // C16: the subscription callback is used only when the maximum-block-time extension is configured.
 //@ func (*Context).subscribeForTransactions
+//@   recvname c
 //@   loops 0
 //@   requires [C16] @configured c.Config.MaxTimePerBlock != nil
 //@   requires cfgOK()
@@ -493,6 +507,8 @@ package dbft
 //@   modifies Context.txSubscriptionOn
 //@ callers [C16] Config.SubscribeForTxs : (*Context).subscribeForTransactions
 //@ func (*Context).reset
+//@   recvname c
+//@   params view, ts
 //@   loops 1
 //@   requires base() && implies(view > 0, wf() && slot() && tip() && view > self.ViewNumber)
 //@   requires ts + self.TimestampIncrement <= 18446744073709551615
@@ -528,11 +544,14 @@ package dbft
 //@        && max(l + q*incr + incr, ((a*incr + r + q*incr) / incr) * incr) == max(l + incr, ((a*incr + r) / incr) * incr) + q*incr)
 //@ pred truncClock() = (gClock / self.TimestampIncrement) * self.TimestampIncrement
 //@ func (*Context).getTimestamp
+//@   recvname c
 //@   loops 0
 //@   requires wf()
 //@   ensures [C15,C14] @trunc result == truncClock()
 //@   modifies gClock
 //@ func (*Context).Fill
+//@   recvname c
+//@   params force
 //@   loops 1
 //@   requires wf()
 //@   loop 1: invariant len(c.TransactionHashes) == len(txx) && !isnil(c.Transactions) && sametable(txx, gPool)
@@ -547,6 +566,8 @@ package dbft
 //@   ensures [C15] @pool implies(result, len(c.TransactionHashes) == len(gPool) && forall(j, 0, len(gPool), c.TransactionHashes[j] == gPool[j].Hash() && has(c.Transactions, gPool[j].Hash())))
 //@   modifies Context.Nonce, Context.Timestamp, Context.TransactionHashes, Context.Transactions, gClock, gPool
 //@ func (*Context).makePrepareRequest
+//@   recvname c
+//@   params force
 //@   inline
 //@   at call *.NewPrepareRequest: assert [C15] @proposalFields arg0 == c.Timestamp && arg1 == c.Nonce && sametable(arg2, c.TransactionHashes)
 // C15: the proposal fields are written only when a proposal is made, received, or the context is reset.
@@ -560,6 +581,7 @@ package dbft
 //@ writers [C02] Context.Validators : (*Context).reset
 
 //@ func (*Context).CreateBlock
+//@   recvname c
 //@   loops 1
 //@   requires wf() && slot()
 //@   ensures result == c.block
@@ -574,6 +596,7 @@ package dbft
 //@   ensures [C02] @complete complete()
 //@   modifies Context.block, Context.header, gBlockTxSet
 //@ func (*Context).CreatePreBlock
+//@   recvname c
 //@   loops 1
 //@   requires wf() && slot() && amev()
 //@   ensures result == c.preBlock
@@ -587,6 +610,7 @@ package dbft
 //@   ensures [C02] @complete complete()
 //@   modifies Context.preBlock, Context.preHeader, gPreBlockTxSet
 //@ func (*Context).MakeHeader
+//@   recvname c
 //@   loops 0
 //@   requires wf() && slot()
 //@   ensures result == c.header
@@ -597,6 +621,7 @@ package dbft
 //@   modifies Context.header
 //@ callers [C07,C02] Config.NewBlockFromContext : (*Context).MakeHeader
 //@ func (*Context).MakePreHeader
+//@   recvname c
 //@   loops 0
 //@   requires wf() && slot() && amev()
 //@   ensures result == c.preHeader
@@ -608,6 +633,8 @@ package dbft
 // ---- send.go ----
 
 //@ func (*DBFT).broadcast
+//@   recvname d
+//@   params msg
 //@   loops 0
 //@   requires wf() && msg != nil
 //@   requires [C13] @silent notWatchOnly()
@@ -629,6 +656,8 @@ package dbft
 //@ callers [C13,C03] Config.Broadcast : (*DBFT).broadcast
 
 //@ func (*DBFT).sendPrepareRequest
+//@   recvname d
+//@   params force
 //@   loops 0
 //@   use U
 //@   use UNDECIDED
@@ -644,6 +673,8 @@ package dbft
 //@   requires [C03,C04] @oneProposal self.MyIndex == self.PrimaryIndex && !rsor() && gPrep == nil
 //@   wraps * unless aview()
 //@ func (*DBFT).sendChangeView
+//@   recvname d
+//@   params reason
 //@   loops 0
 //@   use U
 //@   at call *.makeChangeView: assert [C14] @stamp arg0 == gClock
@@ -656,6 +687,7 @@ package dbft
 //@   ensures [C10] @arms notWatchOnly() == false || gTimerArms > old(gTimerArms)
 //@   wraps * unless aview()
 //@ func (*DBFT).sendPrepareResponse
+//@   recvname d
 //@   loops 0
 //@   requires wf() && slot() && prep()
 //@   requires [C13] @silent notWatchOnly()
@@ -673,6 +705,7 @@ package dbft
 //@   ensures [C03] @said said()
 //@   modifies Context.PreparationPayloads, gBroadcasts, gLastBcast, gPrep, gMaxOwnView
 //@ func (*DBFT).sendPreCommit
+//@   recvname d
 //@   loops 0
 //@   requires wf() && slot()
 //@   requires [C13] @silent notWatchOnly()
@@ -688,6 +721,7 @@ package dbft
 //@   ensures [C02] @complete complete()
 //@   modifies Context.PreCommitPayloads, Context.preBlock, Context.preHeader, gBroadcasts, gLastBcast, gPreCommit, gMaxOwnView, gPreBlockTxSet
 //@ func (*DBFT).sendCommit
+//@   recvname d
 //@   loops 0
 //@   requires wf() && slot() && verc()
 //@   requires [C13] @silent notWatchOnly()
@@ -706,19 +740,24 @@ package dbft
 //@   ensures gBroadcasts >= old(gBroadcasts)
 //@   modifies Context.CommitPayloads, Context.header, gBroadcasts, gLastBcast, gCommit, gMaxOwnView
 //@ func (*Context).makeChangeView
+//@   recvname c
+//@   params ts, reason
 //@   inline
 //@   at call *.NewChangeView: assert [C14] @stamp arg2 == ts
 //@ func (*Context).makeCommit
+//@   recvname c
 //@   inline
 //@   at call *.Sign: assert [C07] @afterPreBlock implies(amev(), c.preBlockProcessed)
 // C13: a block signature and pre-commit data are produced in these two places only, and never on a watch-only node
 //@   at call *.Sign: assert [C13] @silent notWatchOnly()
 //@ func (*Context).makePreCommit
+//@   recvname c
 //@   inline
 //@   at call *.SetData: assert [C13] @silent notWatchOnly()
 //@ callers [C13] Block.Sign : (*Context).makeCommit
 //@ callers [C13] PreBlock.SetData : (*Context).makePreCommit
 //@ func (*DBFT).sendRecoveryRequest
+//@   recvname d
 //@   loops 0
 //@   requires wf() && slot()
 // C14: the timestamps put into requests are the reading of the injected clock itself (nothing is done to it on the way)
@@ -729,6 +768,7 @@ package dbft
 //@   ensures gMaxOwnView <= self.ViewNumber && gMaxOwnView >= old(gMaxOwnView) && gBroadcasts == old(gBroadcasts) + 1 && txKept()
 //@   modifies Context.MissingTransactions, Context.Transactions, gBroadcasts, gLastBcast, gClock, gMaxOwnView
 //@ func (*Context).makeRecoveryMessage
+//@   recvname c
 //@   loops 4
 //@   requires wf() && slot()
 //@   requires [C03] @said said()
@@ -736,6 +776,7 @@ package dbft
 //@   ensures result.Type() == RecoveryMessageType && result.ViewNumber() == self.ViewNumber
 //@   modifies nothing
 //@ func (*DBFT).sendRecoveryMessage
+//@   recvname d
 //@   loops 0
 //@   requires wf() && slot()
 //@   requires [C13] @silent notWatchOnly()
@@ -747,6 +788,7 @@ package dbft
 // ---- check.go ----
 
 //@ func (*DBFT).checkPrepare
+//@   recvname d
 //@   loops 1
 //@   use U
 //@   use UNDECIDED
@@ -754,6 +796,7 @@ package dbft
 //@   loop 1: invariant 0 <= count && count <= idx && idx <= NN() && implies(hasRequest, rsor())
 //@   loop 1: invariant [C04] @counts count == count(j, 0, idx, curPrep(j))
 //@ func (*DBFT).checkPreCommit
+//@   recvname d
 //@   loops 1
 //@   use U
 //@   use UNDECIDED
@@ -767,6 +810,7 @@ package dbft
 //@ callers [C07,C02] Config.ProcessPreBlock : (*DBFT).checkPreCommit
 //@ writers [C07] Context.preBlockProcessed : (*DBFT).checkPreCommit, (*Context).reset
 //@ func (*DBFT).checkCommit
+//@   recvname d
 //@   loops 1
 //@   use U
 //@   use UNDECIDED
@@ -779,6 +823,8 @@ package dbft
 //@ callers [C02,C05,C01] Config.ProcessBlock : (*DBFT).checkCommit
 //@ writers [C05] Context.blockProcessed : (*DBFT).checkCommit, (*Context).reset
 //@ func (*DBFT).checkChangeView
+//@   recvname d
+//@   params view
 //@   loops 1
 //@   use U
 //@   at call *.makeChangeView: assert [C14] @stamp arg0 == gClock
@@ -791,6 +837,8 @@ package dbft
 // ---- dbft.go ----
 
 //@ func (*DBFT).addTransaction
+//@   recvname d
+//@   params tx
 //@   loops 0
 //@   use U
 //@   use UNDECIDED
@@ -801,6 +849,8 @@ package dbft
 //@   requires tx != nil && rsor()
 //@   requires [C03] @lock !locked() && gPrep == nil
 //@ func (*DBFT).Start
+//@   recvname d
+//@   params ts
 //@   loops 0
 //@   ensures [C15] @base self.lastBlockTimestamp == ts
 //@   ensures [C05] @cachePurged cachePurged()
@@ -810,6 +860,8 @@ package dbft
 //@   requires ts + self.TimestampIncrement <= 18446744073709551615
 //@   use INV
 //@ func (*DBFT).Reset
+//@   recvname d
+//@   params ts
 //@   loops 0
 //@   ensures [C15] @base self.lastBlockTimestamp == ts
 //@   ensures [C05] @cachePurged cachePurged()
@@ -818,6 +870,8 @@ package dbft
 //@   requires ts + self.TimestampIncrement <= 18446744073709551615
 //@   use INV
 //@ func (*DBFT).initializeConsensus
+//@   recvname d
+//@   params view, ts
 //@   loops 4
 //@   requires base() && implies(view > 0, wf() && slot() && tip() && view > self.ViewNumber)
 //@   requires [C04] @viewEvidence implies(view > 0, cvCount(view) >= specM(NN()))
@@ -882,6 +936,8 @@ package dbft
 // A-VIEW / A-RTT: the timeout arithmetic is checked for overflow only under the view bound, a bounded RTT average and a non-zero last block time
 //@   wraps * unless aview() && 0 <= self.rttEstimates.avg && self.rttEstimates.avg <= 2305843009213693952 && self.lastBlockTime != tzero() && self.lastBlockIndex < 4294967295
 //@ func (*DBFT).OnTransaction
+//@   recvname d
+//@   params tx
 //@   loops 0
 //@   use U
 //@   requires tx != nil
@@ -898,12 +954,15 @@ package dbft
 //@   ensures [C12] @answersInKind implies(!old(has(self.Transactions, tx.Hash())) && has(self.Transactions, tx.Hash()) && self.ViewNumber == old(self.ViewNumber) && hasAllTx() && notWatchOnly() && !old(self.blockProcessed) && aview(),
 //@        self.PreparationPayloads[self.MyIndex] != nil || askedToLeave())
 //@ func (*DBFT).OnTimeout
+//@   recvname d
+//@   params height, view
 //@   loops 0
 //@   use U
 //@   ensures [C10] @rearm implies(aview() && height == old(self.BlockIndex) && view == old(self.ViewNumber) && !old(self.blockProcessed) && notWatchOnly(), gTimerArms > old(gTimerArms) || self.blockProcessed)
 //@   ensures [C11] @staleTimeout implies(height != old(self.BlockIndex) || view != old(self.ViewNumber), ignored())
 //@   ensures [C05] @quiescent implies(old(self.blockProcessed), quiet() && gBroadcasts == old(gBroadcasts))
 //@ func (*DBFT).OnNewTransaction
+//@   recvname d
 //@   loops 0
 //@   use U
 //@   at call *.onTimeout: assert [C16] @forced arg2 == true
@@ -913,6 +972,8 @@ package dbft
 //@   ensures [C16] @ignoredUnlessSubscribed implies(!old(self.txSubscriptionOn), quiet() && gBroadcasts == old(gBroadcasts))
 //@   ensures [C05] @quiescent implies(old(self.blockProcessed), quiet() && gBroadcasts == old(gBroadcasts))
 //@ func (*DBFT).onTimeout
+//@   recvname d
+//@   params height, view, force
 //@   loops 0
 //@   use U
 //@   ensures [C11] @staleTimeout implies(height != old(self.BlockIndex) || view != old(self.ViewNumber), ignored())
@@ -926,6 +987,8 @@ package dbft
 // a forced timeout of the current epoch makes a primary that has not proposed yet propose
 //@   ensures [C16] @forcedPrimaryProposes implies(force && height == old(self.BlockIndex) && view == old(self.ViewNumber) && old(!self.blockProcessed && self.MyIndex == self.PrimaryIndex && !rsor()) && notWatchOnly(), gBroadcasts > old(gBroadcasts))
 //@ func (*DBFT).OnReceive
+//@   recvname d
+//@   params msg
 //@   loops 0
 //@   use U
 //@   requires msg != nil
@@ -953,6 +1016,8 @@ package dbft
 //@        && old(self.ChangeViewPayloads[msg.ValidatorIndex()]) == msg && !old(self.blockProcessed), quiet())
 //@ pred admitted(msg) = msg != nil && msg.ValidatorIndex() < NN() && msg.Payload() != nil && msg.Height() == self.BlockIndex
 //@ func (*DBFT).onPrepareRequest
+//@   recvname d
+//@   params msg
 //@   loops 0
 //@   use U
 //@   use UNDECIDED
@@ -961,6 +1026,8 @@ package dbft
 // A7 (honest identity): a proposal carrying this node's own index was made by this node, hence is already stored.
 //@   assume @A7 msg.ValidatorIndex() != self.MyIndex || rsor()
 //@ func (*DBFT).onPrepareResponse
+//@   recvname d
+//@   params msg
 //@   loops 0
 //@   use U
 //@   use UNDECIDED
@@ -968,12 +1035,16 @@ package dbft
 //@   ensures [C11] @inadmissible implies(msg.ViewNumber() != old(self.ViewNumber) || msg.ValidatorIndex() == old(self.PrimaryIndex) || old(self.PreparationPayloads[msg.ValidatorIndex()]) != nil, ignored())
 //@   assume @A7 msg.ValidatorIndex() != self.MyIndex || self.PreparationPayloads[self.MyIndex] != nil
 //@ func (*DBFT).onChangeView
+//@   recvname d
+//@   params msg
 //@   loops 0
 //@   use U
 //@   use UNDECIDED
 //@   requires admitted(msg) && msg.Type() == ChangeViewType
 //@   ensures [C11] @redeliveredChangeView implies(old(self.ChangeViewPayloads[msg.ValidatorIndex()]) == msg, quiet())
 //@ func (*DBFT).onPreCommit
+//@   recvname d
+//@   params msg
 //@   loops 0
 //@   use U
 //@   use UNDECIDED
@@ -984,6 +1055,8 @@ package dbft
 // a pre-commit that arrives when the pre-block can be built is counted only after its data verified against that pre-block
 //@   at call *.checkPreCommit: assert [C02] @arrivalVerified self.preBlock != nil && curP(msg.ValidatorIndex()) && verP(msg.ValidatorIndex())
 //@ func (*DBFT).onCommit
+//@   recvname d
+//@   params msg
 //@   loops 0
 //@   use U
 //@   use UNDECIDED
@@ -991,11 +1064,15 @@ package dbft
 //@   ensures [C11] @repeated implies(old(self.CommitPayloads[msg.ValidatorIndex()]) != nil, ignored())
 //@   assume @A7 msg.ValidatorIndex() != self.MyIndex || self.CommitPayloads[self.MyIndex] != nil
 //@ func (*DBFT).onRecoveryRequest
+//@   recvname d
+//@   params msg
 //@   loops 0
 //@   use U
 //@   requires admitted(msg)
 //@   ensures [C05] @onlyRecoveryReply quiet() && (gBroadcasts == old(gBroadcasts) || (gLastBcast.Type() == RecoveryMessageType && gBroadcasts == old(gBroadcasts) + 1))
 //@ func (*DBFT).onRecoveryMessage
+//@   recvname d
+//@   params msg
 //@   loops 4
 //@   use U
 //@   use UNDECIDED
@@ -1010,6 +1087,7 @@ package dbft
 //@   loop 4: use LOOPU
 //@   loop 4: invariant 0 <= validCommits && validCommits <= idx
 //@ func (*DBFT).processMissingTx
+//@   recvname d
 //@   loops 1
 //@   requires wf()
 //@   loop 1: invariant !isnil(self.Transactions) && txKept()
@@ -1019,6 +1097,7 @@ package dbft
 //@   ensures [C12] @keepsAsking len(self.MissingTransactions) >= old(len(self.MissingTransactions)) && forall(j, 0, old(len(self.MissingTransactions)), self.MissingTransactions[j] == old(self.MissingTransactions[j]))
 //@   modifies Context.MissingTransactions, Context.Transactions
 //@ func (*DBFT).createAndCheckBlock
+//@   recvname d
 //@   loops 0
 //@   use U
 //@   use UNDECIDED
@@ -1029,6 +1108,8 @@ package dbft
 //@   ensures [C12] @rejectedAsksToLeave implies(!result && notWatchOnly() && aview(), self.ViewNumber > old(self.ViewNumber) || askedToLeave())
 //@   ensures [C04] @blockAccepted implies(result, gVerified != nil && (gVerified == self.block || gVerified == self.preBlock))
 //@ func (*DBFT).updateExistingPayloads
+//@   recvname d
+//@   params msg
 //@   loops 1
 //@   requires wf() && slot() && msg != nil && !rsor() && verc() && said()
 //@   loop 1: invariant wf() && slot() && !rsor() && verc() && said()
@@ -1041,6 +1122,7 @@ package dbft
 //@   ensures [C02] @complete complete()
 //@   modifies Context.PreparationPayloads, Context.CommitPayloads, Context.PreCommitPayloads, Context.header, Context.preHeader, Context.preBlock, gPreBlockTxSet
 //@ func (*DBFT).verifyPreCommitPayloadsAgainstPreBlock
+//@   recvname d
 //@   loops 1
 //@   requires wf() && slot() && said()
 //@   ensures [C03] @said said()
@@ -1054,6 +1136,7 @@ package dbft
 //@   ensures implies(old(self.preBlock) != nil, self.preBlock == old(self.preBlock))
 //@   modifies Context.PreCommitPayloads, Context.preHeader, Context.preBlock, gPreBlockTxSet
 //@ func (*DBFT).verifyCommitPayloadsAgainstHeader
+//@   recvname d
 //@   loops 1
 //@   requires wf() && slot() && said()
 //@   ensures [C03] @said said()
@@ -1065,6 +1148,8 @@ package dbft
 //@   ensures [C02,C01] @verc verc()
 //@   modifies Context.CommitPayloads, Context.header
 //@ func (*DBFT).changeTimer
+//@   recvname d
+//@   params delay
 //@   loops 0
 //@   requires wf()
 //@   requires [C10] @nonneg implies(aview(), delay >= 0)
@@ -1080,6 +1165,8 @@ package dbft
 //@   requires [C10] @nonneg arg0 >= 0
 //@   ghost gTimerExt = gTimerExt + 1
 //@ func (*DBFT).extendTimer
+//@   recvname d
+//@   params count
 //@   loops 0
 //@   requires wf() && slot() && 0 <= count && count <= 4
 //@   modifies gTimerExt
@@ -1087,6 +1174,8 @@ package dbft
 // ---- helpers.go, rtt.go ----
 
 //@ func (*cache).getHeight
+//@   recvname c
+//@   params h
 //@   loops 1
 //@   loop 1: invariant cacheOK() && forall(k2, implies(visited(k2) && k2 < h, !has(self.cache.mail, k2)))
 //@   loop 1: invariant forall(k2, implies(has(self.cache.mail, k2), rangehas(k2) && self.cache.mail[k2] == old(self.cache.mail[k2])))
@@ -1098,6 +1187,8 @@ package dbft
 //@   ensures [C05] @purged forall(k, implies(has(self.cache.mail, k), k > h && old(has(self.cache.mail, k)) && self.cache.mail[k] == old(self.cache.mail[k])))
 //@   modifies cache.mail
 //@ func (*cache).addMessage
+//@   recvname c
+//@   params m
 //@   loops 0
 //@   requires cacheOK() && m != nil
 //@   ensures cacheOK() && heapMono()
@@ -1105,6 +1196,8 @@ package dbft
 //@   ensures [C05] @stored cached(m)
 //@   modifies cache.mail, heap inbox.*
 //@ func (*rtt).addTime
+//@   recvname r
+//@   params t
 //@   loops 0
 //@   requires 0 <= r.idx && r.idx < 70
 //@   ensures 0 <= r.idx && r.idx < 70
